@@ -58,7 +58,34 @@ def _build(case):
                 a[k] = 90.0 + float(rng.choice([-1, 1])) * float(rng.uniform(1e-4, 8e-4))
             return l, a
         return common.random_cell(rng, case["cell"])
-    cells = [one_cell() for _ in range(nf if perframe else 1)]
+    # per-frame variation comes in three flavours: everything changes; only ONE length or angle changes from frame to
+    # frame (semi-isotropic / constant-area pressure coupling: kernels that cache per-frame work must not key it on a
+    # part of the cell); or the cell CLASS changes along the trajectory (orthorhombic first, skewed later: joined runs)
+    pf_mode = int(rng.integers(0, 3)) if perframe else 0
+    if not perframe:
+        cells = [one_cell()]
+    elif pf_mode == 0:
+        cells = [one_cell() for _ in range(nf)]
+    elif pf_mode == 1:
+        l0, a0 = one_cell()
+        cells = []
+        which = int(rng.integers(0, 6))
+        for f in range(nf):
+            l, a = l0.copy(), a0.copy()
+            if which < 3:
+                l[which] = l0[which] * (1 + 0.05 * f)
+            elif not np.all(a0 == 90.0):
+                k = which - 3
+                if a0[k] != 90.0:
+                    a[k] = a0[k] + 0.7 * f if common.cell_valid(np.where(np.arange(3) == k, a0[k] + 0.7 * f, a0)) else a0[k]
+                else:
+                    l[k] = l0[k] * (1 + 0.05 * f)
+            else:
+                l[which - 3] = l0[which - 3] * (1 + 0.03 * f)
+            cells.append((l, a))
+    else:
+        first = common.random_cell(rng, "ortho" if rng.random() < 0.7 else case["cell"])
+        cells = [first] + [one_cell() if rng.random() < 0.7 else common.random_cell(rng, "ortho") for _ in range(nf - 1)]
     if not perframe:
         cells = cells * nf
     L = np.array([c[0] for c in cells], dtype=np.float32)
@@ -113,6 +140,7 @@ def run_case(case, ctx):
     ctx.observe("cell", case["cell"])
     ctx.observe("kind", kind)
     ctx.observe("spread_cells", case["spread"])
+    ctx.observe("per_frame_cells", bool(case["perframe"]))
     tau = _tau(t.xyz, B, case["spread"])
 
     def judge_dist(name, d, f_idx, raw, Bf, label):
